@@ -109,10 +109,11 @@ def get_megacomplex_issues(
 
     if value is not None:
         labels = [v if isinstance(v, str) else v.label for v in value]
-        megacomplexes = [model.megacomplex[label] for label in labels]
+        # Undefined labels are reported as missing model items and can't be type checked here.
+        megacomplexes = [model.megacomplex[label] for label in labels if label in model.megacomplex]
         for megacomplex in megacomplexes:
             megacomplex_type = megacomplex.__class__
-            if is_exclusive(megacomplex_type) and len(megacomplexes) > 1:
+            if is_exclusive(megacomplex_type) and len(labels) > 1:
                 issues.append(
                     ExclusiveMegacomplexIssue(megacomplex.label, megacomplex.type, is_global)
                 )
